@@ -8,6 +8,7 @@ CHECK = dict(
         "the filtering request carries the lower-cased host without the trailing dot, as ratelimitmw.newRequestInfo produces it",
         "where several equally ranked rules match (several network block rules, or several hosts rules when no network block rule matches; a custom and a shared allow rule; a CNAME and an rcode rewrite of one list; verdicts on several records of one answer) every one of them is accepted as the deciding one; pinned from the doc comments: network rules before hosts rules, CNAME/rcode rewrites before address rewrites of the same list",
         "a bare IPv4 address line is a network (substring) rule for urlfilter, not a hosts rule; the reference treats it so",
+        "cmd unit: filteringGroups.toInternal is called directly with a storage stand-in that knows the list IDs (builder.initFilteringGroups passes the real *filterstorage.Default, which needs a downloaded index)",
     ],
     units=[
         dict(name="composite", dir="internal/filter/internal/composite", src="C02/composite", runs=[
@@ -16,6 +17,9 @@ CHECK = dict(
         dict(name="mainmw", dir="internal/dnssvc/internal/mainmw", src="C02/mainmw", runs=[
             dict(name="shape", run="^TestVerifC02Shape$", quick=4000, thorough=80000, shards_quick=2, shards_thorough=8),
             dict(name="shape-race", run="^TestVerifC02Shape$", quick=300, thorough=8000, shards_thorough=4, race=True),
+        ]),
+        dict(name="cmd", dir="internal/cmd", src="C02/cmd", runs=[
+            dict(name="filtering-groups-config", run="^TestVerifC02CmdFilteringGroups$", quick=3000, thorough=120000, shards_quick=2, shards_thorough=4),
         ]),
     ],
 )
